@@ -130,7 +130,7 @@ def cases(tier, rng):
            [ch + nm for nm in ("C", "Bb") for ch in ("\n", " ")] + ["C\n#", "B\nb", "C\n-4"]
     for bad in ["H", "c", "C-x", "C-4-5", "-4", "C#x", "Cis", "1", " C"] + near:
         yield Case("note.new", [bad, 4, None, None], "malformed")
-    for s in ["C-4", "Bb-0", "F##-10", "A-007", "G#b-3"]:
+    for s in ["C-4", "Bb-0", "F##-10", "A-007", "G#b-3"] + [n_ + "-" + str(o_) for n_ in ("C", "G", "Eb") for o_ in (0, 5, 9, 10, 11, 12, 23, 45, 78, 89, 90, 100, 123)]:
         yield Case("note.new", [s, 9, None, None], "text")
     for sh in ["c", "C", "c'", "C,", "cb", "bb", "b", "bb''", "B,,", "f#'''", "Bb", "ab", "a#", "c,'", "", "x", "eb,", ",,", "'", "#", "1", " c"]:
         yield Case("note.from_shorthand", [sh], "helmholtz/from")
@@ -192,6 +192,9 @@ def oracle(c, obs):
             return None if (isinstance(obs, list) and ok and obs[2] == (1 if ch is None else ch)) or (obs == Err("ValueError") and not ok) else "channel bound 0-15 not enforced"
         if c["tag"] == "malformed":
             return None if isinstance(obs, Err) and obs.name in ("NoteFormatError", "ValueError", "IndexError") else "malformed name not rejected"
+        if c["tag"] == "text":
+            name_, oct_ = nm.split("-")
+            return None if isinstance(obs, list) and obs[:2] == [name_, int(oct_)] else "the text form %r is not read as name %r in octave %d" % (nm, name_, int(oct_))
         return None
     if fn == "note.cmp_dyn":
         x = 12 * a[1] + NATURAL[a[0][0]] + net(a[0])
